@@ -12,6 +12,7 @@ import Rare.Proofs.C08Extra
 import Rare.Proofs.C08Loops
 import Rare.Proofs.C08Sites
 import Rare.Proofs.C08Size
+import Rare.Proofs.C08Doubling
 import Rare.Proofs.C08Format
 import Rare.Proofs.C08TimeW
 import Rare.Proofs.C08TimeSeam
@@ -1086,9 +1087,8 @@ theorem for_output_bound (c : Ctx) (a0 cond incr : Stage) (B : Nat) (out : Bytes
     simpa using this
   · cases h
 
-/-- The increment `{0}{0}` (the previous value twice) and a condition that holds until round `n`. -/
-def dblIncr : Stage := .getMatch 0 fun a => .getMatch 0 fun b => .ret (a ++ b)
-def untilRound (n : Nat) : Stage := .getMatch 1 fun i => .ret (if i = itoa (n : Int) then [] else [49])
+-- `dblIncr` (the increment `{0}{0}`: the previous value twice) and `untilRound n` (a condition that holds until
+-- round `n`) are defined in Proofs/C08Doubling.lean.
 
 /-- **The remaining family**: an increment whose value is not bounded by any `B` - it returns its own previous value
     twice - makes `{@for}` answer `2^n - 1` bytes (and `n - 1` separators) after `n` rounds: 12 rounds from one
@@ -1103,5 +1103,21 @@ theorem for_doubling_counterexample :
   intro B
   refine ⟨List.replicate (B + 1) 97, [], List.replicate (B + 1) 97 ++ List.replicate (B + 1) 97, rfl, ?_⟩
   simp only [List.length_append, List.length_replicate]; omega
+
+/-- **Doubling for every round count** (round 4 had the instance `n = 12`): for every start value `s`, every
+    `n ≤ MAX_ITERATIONS` and every context, `{@for s <until round n> "{0}{0}"}` returns, and its answer has exactly
+    `|s|·(2^n − 1)` bytes of values plus `n − 1` separators – the size of the answer is exponential in a number the
+    template author writes in decimal, which no per-helper cap bounds (known finding `oom-accumulator`). -/
+theorem for_doubling_all (c : Ctx) (s : Bytes) (n : Nat) (hn : n ≤ Gen.maxIterations) :
+    ∃ out, (Funcs.Range.forStage (.ret s) (untilRound n) dblIncr).run c = .ok out ∧
+      out.length + s.length + (if 0 < n then 1 else 0) = s.length * 2 ^ n + n :=
+  forStage_doubling c s n hn
+
+example : ∃ out, (Funcs.Range.forStage (.ret [97]) (untilRound 40) dblIncr).run ⟨fun _ => [], fun _ => []⟩ = .ok out ∧
+    out.length = 2 ^ 40 - 1 + 39 := by
+  obtain ⟨out, h, hl⟩ := for_doubling_all ⟨fun _ => [], fun _ => []⟩ [97] 40 (by decide)
+  refine ⟨out, h, ?_⟩
+  simp at hl
+  omega
 
 end Rare.C08
